@@ -96,6 +96,21 @@ CHECKS = {
         note='Trusted: scipy.stats densities and numpy.cov(aweights) as reference formulas; rtol 1e-8 for weights and '
              'covariances; degenerate-weight runs are counted, not judged.',
         design_ref='4 C07'),
+    'C09': dict(
+        level='model_checking',
+        technique='stateless DFS over every scripted log-target answer sequence of the real random-walk Metropolis kernel '
+                  '(bitwise leaf oracle: a reference Metropolis replaying the same RandomState stream), plus exhaustive '
+                  'product enumeration of real-target configurations for Metropolis and NUTS',
+        text='The log-target is an environment whose k-th answer (finite values, -inf, +inf, NaN) is a choice; the complete '
+             'answer tree of every (dim, sigma, n_samples, warm-up, seed) configuration up to 4 steps (6 thorough) runs on '
+             'the real kernel and chain and proposals must equal the reference bit for bit. On real targets with hard '
+             'boundaries and NaN/+inf regions both samplers must return the requested count, be deterministic in the seed '
+             'independently of the global generator and never return a state with -inf/NaN target. Moments are a fixed '
+             'finite regression table, not exhaustive.',
+        note='Trusted: numpy RandomState determinism; the reference Metropolis (four accepted legal draw orders); NUTS has '
+             'no algorithmic reference - only count, determinism and support are decided for it. Exact u == ratio ties '
+             'unjudged (none occurred). Size-1-array targets and empty requests excluded.',
+        design_ref='4 C09'),
     'C10': dict(
         level='exploration',
         technique='exhaustive enumeration of a finite family of fitted surrogates x query-point grids x input shapes '
